@@ -106,6 +106,11 @@ func NewSession(id uint16, clientMAC, serverMAC net.HardwareAddr) (*Session, err
 		return nil, fmt.Errorf("failed to generate session ID: %w", err)
 	}
 
+	// Callers pass slices of their receive buffer: keep private copies, or the
+	// session's owner MAC would change with every later frame
+	clientMAC = append(net.HardwareAddr(nil), clientMAC...)
+	serverMAC = append(net.HardwareAddr(nil), serverMAC...)
+
 	return &Session{
 		ID:           id,
 		ClientMAC:    clientMAC,
